@@ -79,7 +79,7 @@ def install():
     if not a:
       return orig_do(self, action)
     rec.sync_stored()
-    ev = {'k': 'doc', 'a': enc_action(a), 'lvl': self._indirection_level, 'pre': []}
+    ev = {'k': 'doc', 'a': enc_action(a), 'lvl': self._indirection_level, 'pre': [], 'nb': rec.n_stored}
     rec.events.append(ev)
     rec.n_stored += 1
     rec.doc_stack.append(ev)
@@ -142,7 +142,7 @@ def install():
           rec.problems.append('add_changes inside the body of %r for %s.%s' % (top['a'][:3], table_id, col_id))
         top['pre'] = chs
       else:
-        rec.events.append({'k': 'calc', 't': table_id, 'c': col_id, 'chs': chs})
+        rec.events.append({'k': 'calc', 't': table_id, 'c': col_id, 'chs': chs, 'nb': rec.n_stored})
     return orig_add(self, table_id, col_id, changes)
   action_summary.ActionSummary.add_changes = add_changes
 
@@ -196,6 +196,7 @@ def install():
     finally:
       if before != checkpoint:
         rec.sync_stored(allow_shrink=True)
+        rec.mark_checkpoint(checkpoint[1])
         rec.events.append({'k': 'rollback', 'n': checkpoint[1]})
         rec.n_stored = len(self.out_actions.stored)
   engine_mod.Engine._undo_to_checkpoint = _undo_to_checkpoint
@@ -213,6 +214,18 @@ class Recorder(object):
     self.doc_stack = []
     self.n_stored = 0
     self.problems = []
+
+  def mark_checkpoint(self, n):
+    """Insert a 'checkpoint' event where the segment that is being rolled back to stored length n began: before the
+    first stored-appending event since the last rollback that was recorded with at least n stored actions."""
+    j = len(self.events) - 1
+    while j >= 0 and self.events[j]['k'] not in ('rollback', 'flushall', 'flushcol') and self.events[j].get('nb', n) >= n:
+      j -= 1
+    for k in range(j + 1, len(self.events)):
+      if self.events[k]['k'] in ('doc', 'docfail', 'create'):
+        self.events.insert(k, {'k': 'checkpoint', 'nb': n})
+        return
+    self.events.append({'k': 'checkpoint', 'nb': n})
 
   def sync_stored(self, allow_shrink=False):
     """Stored actions appended by code that is not instrumented (InitNewDoc's creation actions)."""
@@ -356,6 +369,8 @@ def coq_event(ev, I, q=q):
     return '(EPrune %s %s)' % (q(ev['t']), q(ev['c']))
   if k == 'rollback':
     return '(ERollback %s)' % zl(ev['n'])
+  if k == 'checkpoint':
+    return 'ECheckpoint'
   raise core.TieBroken('event kind %r has no model counterpart' % (k,))
 
 
@@ -407,6 +422,6 @@ def coq_levent(ev, I, q=q):
     return '(LFlush %s)' % core.coq_list([coq_action(a, I, q) for a in ev['acts']])
   if k == 'rollback':
     return '(LTrim %s)' % zl(ev['n'])
-  if k in ('calc', 'prune', 'unlogged'):
+  if k in ('calc', 'prune', 'unlogged', 'checkpoint'):
     return None
   raise core.TieBroken('event kind %r has no model counterpart' % (k,))
